@@ -98,6 +98,40 @@ REGISTRY = {
         'assumptions': ['classic CAN: DLC <= 8'],
         'trusted': ['modelled, not verified: libc::can_frame memory layout, socket2 send/recv, AsyncFd readiness'],
     },
+    'C06': {
+        'rule': 'every driver kind (HCU, VCU, ECU, encoder, inclinometer, j1939 ECM, Volvo D7E) under several address configurations stepped through the real J1939Unit::try_recv under catch_unwind: 34 parameter groups (every one a driver inspects + foreign PDU1/PDU2) x source (all 256 thorough / every 5th quick) x destination classes with a boundary byte {00,01,7F,80,FE,FF} at a random offset; '
+                'from the unit itself: all-FF (a padded DLC-0 frame), all-00, 11 boundary values at each of the 8 offsets, random data (60 quick / 3000 thorough per group and driver); result vs extracted model; non-trivial = frame whose source is the unit; distinct by case text. The normalisation of short frames itself is exercised on the real socket path in C17 (all DLC 0..8)',
+        'exhaustive': {'quick': False, 'thorough': False},
+        'level_text': 'Theorem C06 proves that for ANY 16 raw bytes accepted from the socket (any can_id, DLC 0..8, any data) the frame handed to every driver kind has exactly 8 data bytes, so none of the drivers\' payload slices / try_into().unwrap() can panic; C06_normalised characterises the padding (prefix kept, suffix 0xFF). '
+                      'The remaining panic point (unknown Vecraft status byte) was a genuine defect, repaired in 21def73; the driver models contain no other partial operation and are tied to the real drivers by differential execution over boundary and random payloads.',
+        'level_note': 'the SPN decoders of crate j1939 (spn::*::from_pdu) called for the engine parameter groups are assumed total on 8-byte payloads (exercised, not modelled); "the network service keeps receiving/ticking afterwards" is checked in the authority-level runs of C10/C20. Trusted: kernel, extraction, drv.ml, harness.',
+        'technique': 'Rocq proof (normalisation lemma composed with the drivers\' 8-byte precondition) + differential execution of every driver on boundary/random frames',
+        'explanation': 'C06, C06_normalised, C06_spec',
+        'assumptions': ['classic CAN (DLC <= 8)', 'crate j1939 spn decoders are total on 8-byte payloads'],
+        'trusted': ['modelled, not verified: Rust slice/array conversion panic conditions; crate j1939 0.1.33 Id accessors and spn decoders'],
+    },
+    'C11': {
+        'rule': 'every driver kind x 3 address configurations x 34 parameter groups x destination classes {unit, daemon, 0xFF, other} x ALL 256 source addresses (first configuration complete in quick, all in thorough), real try_recv on a fresh context: rx_count, rx_last_message and the signals are observed and compared with the extracted model; the C11 predicate (credited => source = unit; signals name the unit; addressed elsewhere / Request => nothing changes) is evaluated on the real observation; '
+                'non-trivial = frame whose source is the unit; distinct by case text',
+        'exhaustive': {'quick': False, 'thorough': True},
+        'level_text': 'Theorems C11 (predicate for all frames/configurations), C11_foreign_inert, C11_source, C11_addressed_elsewhere, C11_names_source (all driver kinds, all contexts), C11_at_most_one (authority scan over driver lists of ANY length: a driver whose address differs from the frame source keeps its context) and C11_request_inert are proved about the Gallina driver models; tied to the real drivers by exhaustive execution over sources x groups x destination classes.',
+        'level_note': 'the model reflects fix 1941a7f (TSC1 credited only from the unit). The authority-level statement is proved on the model of NetworkAuthority::recv (scan order, first non-empty rx_queue marks and stops); its real-code tie is the single-driver execution plus the authority runs in C10/C20. Trusted: kernel, extraction, drv.ml, harness.',
+        'technique': 'Rocq proof (case analysis over parameter group x driver kind, address arithmetic by lia, induction over the driver list) + exhaustive source/group/destination correspondence',
+        'explanation': 'seven theorems in Properties/C11.v',
+        'assumptions': ['received frames are 8 bytes (C06)'],
+        'trusted': ['modelled, not verified: crate j1939 Id::pgn()/destination_address()/source_address()'],
+    },
+    'C12': {
+        'rule': 'real try_recv: inclinometer: every 16-bit value of each slope word (thorough; every 8th + boundaries quick) and all status bytes; encoder: all four addresses x status word sweep x position boundaries (0,1,999,1000,2^24+-1,2^31,2^32-2,all-FF) + 6k/250k sampled positions; EEC1 on both engine drivers: rpm word (all thorough; every 32nd + boundaries quick) x 16 starter nibbles x absent/present torque/demand classes; hydraulic status: (state, lock) byte pairs; '
+                'integer fields compared exactly with the extracted model; rotations compared in the harness with an f64 reference of the protocol formula (matrix distance < 2e-4; the encoder scalar is evaluated with the same f32 operations) and reported as one bit; C12 predicate evaluated on the real observation; non-trivial = frame from the unit; distinct by case text',
+        'exhaustive': {'quick': False, 'thorough': True},
+        'level_text': 'Theorem C12 proves the field-by-field characterisation for ALL 2^64 payloads (encoder position and error class, inclinometer slopes as signed tenths of a degree, EEC1 demand/load/rpm and state incl. "a 0 rpm engine is never running" and "active starter => starting", hydraulic lock bit, device errors surfaced without suppressing the measurement) about the Gallina models; C12_eec1_fields and C12_never_running_at_zero state the engine part directly. Tied by exhaustive execution over every 16-bit field.',
+        'level_note': 'partial on the float half: the rotation produced from the decoded integers (nalgebra from_axis_angle / from_euler_angles, f32 sin/cos) is checked against an f64 reference inside the harness, not modelled in Coq. Trusted: kernel, extraction, drv.ml, harness (incl. its reference rotation).',
+        'technique': 'Rocq proof (byte-exact integer decoding, lia with div/mod over exploded 8-byte payloads) + exhaustive 16-bit-field correspondence + float tolerance check in the harness',
+        'explanation': 'C12, C12_eec1_fields, C12_never_running_at_zero',
+        'assumptions': ['received frames are 8 bytes (C06)', 'rotation matrices compared with tolerance 2e-4'],
+        'trusted': ['modelled, not verified: j1939 slots::{position_level2,rotational_velocity}::dec float clamping; nalgebra rotations; libm sin/cos'],
+    },
     'C07': {
         'level_text': 'Theorem C07 (and C07_envelope, C07_never_panics) proves the envelope for ALL idle<=max, ALL integer speeds and all 48 '
                       'state/age combinations about the Gallina model of Governor::next_state; the model is tied to the code by exhaustive '
